@@ -45,6 +45,18 @@ def independent_tf(ss):
     return tf
 
 
+def discrete_flags(ss):
+    """All exported discrete flags of all models in use, as one float array (order is model/declaration order)."""
+    parts = []
+    for mdl in ss.exist.pflow_tds.values():
+        if not mdl.n:
+            continue
+        for d in mdl.discrete.values():
+            for v in d.get_values():
+                parts.append(np.ravel(np.asarray(v, dtype=float)))
+    return np.concatenate(parts) if parts else np.zeros(0)
+
+
 class StepTap:
     def __init__(self, ss, seq, hist, keep_arrays=True):
         self.ss, self.seq, self.hist = ss, seq, hist
@@ -77,6 +89,7 @@ class StepTap:
         rec['x1'] = dae.x.copy()
         rec['y1'] = dae.y.copy()
         rec['f1'] = dae.f.copy()
+        rec['z'] = discrete_flags(self.ss)
         if not ok:
             # rejection must be a no-op on x, y, f
             same = (np.array_equal(rec['x1'], rec['x0']) and np.array_equal(rec['y1'], rec['y0'])
@@ -170,6 +183,14 @@ class SolverTap:
             return call(A, b)
         rec['iters'] += 1
         k = rec['k']
+        dae = self.ss.dae
+        held = rec.setdefault('held', set())
+        for item in self.ss.antiwindups:
+            for key, _, _ in item.x_set:
+                held.update(np.atleast_1d(key).tolist())
+        if rec['iters'] == 1:
+            rec['f_first'] = dae.f.copy()
+            rec['g_first'] = dae.g.copy()
         if self.check_mirror:
             e = self._mirror(b, rec)
             if e > rec['mirror_err']:
